@@ -123,3 +123,24 @@ pub fn init_record(fs: &str,label: &str,disk: &mut Box<dyn DiskFS>) -> String {
     };
     format!("{} {} {} {} {} {} {}",a.total_units,lo,used_s,rootcap,ext,sf,sm)
 }
+
+/// fsckfile id fs kind path : load an image file written by the CLI, run the independent reader on it:
+/// the volume must be well formed, empty, nothing marked used that nothing owns, and stat must agree with the allocation map
+pub fn fsck_file(toks: &[&str]) -> String {
+    let fs = toks[2]; let kind = toks[3]; let path = toks[4];
+    let mut disk = match a2kit::create_fs_from_file(path) { Ok(d) => d, Err(e) => return format!("FAIL cannot reopen: {}",e) };
+    let label = format!("x:{}",kind);
+    let free = match disk.stat() { Ok(s) => s.free_blocks, Err(e) => return format!("FAIL stat: {}",e) };
+    match alpha_of(fs,&label,&mut disk) {
+        Some(a) => {
+            let v = a.check();
+            if !v.is_empty() { return format!("FAIL fresh volume is not well formed: {}",v[..v.len().min(3)].join("; ")); }
+            if !a.entries.is_empty() { return format!("FAIL fresh volume lists {} entries",a.entries.len()); }
+            let leaked = a.leaked();
+            if !leaked.is_empty() { return format!("FAIL fresh volume marks {} units used that belong to nothing: {:?}",leaked.len(),&leaked[..leaked.len().min(10)]); }
+            if a.free_units()!=free { return format!("FAIL stat reports {} free but the allocation map has {}",free,a.free_units()); }
+            format!("ok free={} total={} sys={}",free,a.total_units,a.sys.len())
+        },
+        None => "ok no-reader".to_string()
+    }
+}
